@@ -54,23 +54,33 @@ theorem stOut_dir (c : Candle K) (hc : Plain c) (r : StRow K) :
   obtain ⟨hi, hs⟩ := hc
   cases hd : r.data <;> simp [stOut, outDS, setD, setKey, hi, hs, dset, dlookup, hd]
 
+theorem stOut_field (fld full : String) (hsplit : splitDot full = [nm ++ "_data", fld]) (c : Candle K) (hc : Plain c) (r : StRow K) :
+    readingByCandle (stOut nm c r) full
+      = match r.data with | some d => d.nested fld | none => .none := by
+  unfold readingByCandle
+  rw [hsplit]
+  obtain ⟨hi, hs⟩ := hc
+  have h1 := hn.nD
+  have h2 := hn.AD
+  have h3 := hn.TD
+  have h4 := hn.HD
+  unfold stOut
+  generalize nm ++ "_atr" ++ "_TR" = T at *
+  generalize nm ++ "_atr" = A at *
+  generalize nm ++ "_HL" = H at *
+  generalize nm ++ "_data" = D at *
+  cases hd : r.data <;>
+    simp [stOut, outDS, setD, setKey, hi, hs, dlookup_dset, hd, h1, h2, h3, h4]
+
 theorem stOut_lower (c : Candle K) (hc : Plain c) (r : StRow K) :
     readingByCandle (stOut nm c r) (nm ++ "_data.lower")
-      = match r.data with | some d => d.nested "lower" | none => .none := by
-  unfold readingByCandle
-  rw [hn.lower]
-  obtain ⟨hi, hs⟩ := hc
-  cases hd : r.data <;>
-    simp [stOut, outDS, setD, setKey, hi, hs, dset, dlookup, hd, hn.nD, hn.nD.symm, hn.AD, hn.AD.symm, hn.TD, hn.TD.symm, hn.HD, hn.HD.symm]
+      = match r.data with | some d => d.nested "lower" | none => .none :=
+  stOut_field nm hn "lower" _ hn.lower c hc r
 
 theorem stOut_upper (c : Candle K) (hc : Plain c) (r : StRow K) :
     readingByCandle (stOut nm c r) (nm ++ "_data.upper")
-      = match r.data with | some d => d.nested "upper" | none => .none := by
-  unfold readingByCandle
-  rw [hn.upper]
-  obtain ⟨hi, hs⟩ := hc
-  cases hd : r.data <;>
-    simp [stOut, outDS, setD, setKey, hi, hs, dset, dlookup, hd, hn.nD, hn.nD.symm, hn.AD, hn.AD.symm, hn.TD, hn.TD.symm, hn.HD, hn.HD.symm]
+      = match r.data with | some d => d.nested "upper" | none => .none :=
+  stOut_field nm hn "upper" _ hn.upper c hc r
 
 theorem stOut_own (hk : IsKey nm) (c : Candle K) (hc : Plain c) (r : StRow K) :
     readingByCandle (stOut nm c r) nm = r.own := by
